@@ -2,6 +2,7 @@ package main
 
 import (
 	"bytes"
+	"context"
 	"encoding/binary"
 	"fmt"
 	"os"
@@ -9,6 +10,7 @@ import (
 	"runtime/debug"
 	"strconv"
 	"strings"
+	"time"
 
 	"github.com/ipfs/go-cid"
 	"github.com/ipld/go-ipld-prime"
@@ -158,23 +160,20 @@ func doBytes(c *vlib.Ctx, b []byte, origin string, verbose bool) {
 	c.Count("dec:" + origin)
 	rp := replay{Kind: "bytes", Codec: "cbor", Hex: hx(b)}
 	fail := func(kind, msg string) {
-		if kind == "typed-accepts-what-generic-rejects" && o.genG.err != nil && strings.Contains(o.genG.err.Error(), "repeat map key") {
-			// one signature for the class: bindnode's struct assembler accepts a repeated field
-			// (later value wins, list elements are appended), basicnode's map rejects it
-			c.Fail("dec:cbor:typed-accepts-what-generic-rejects:repeated-map-key",
-				"a DAG-CBOR block with a repeated struct field is rejected when loaded with the generic prototype and accepted when loaded with the typed prototype (e.g. {\"Entries\":[h'01'],\"Entries\":[h'02',h'03']} decodes to the chunk [01,02,03]): "+msg,
-				replay{Kind: "bytes", Codec: "cbor", Hex: "a267456e747269657381410167456e74726965738241024103"})
-			return
-		}
 		min := shrinkBytes(b, func(x []byte) bool { return bytesFailure(observe(x)) == kind })
 		c.Fail("dec:cbor:"+kind+":"+hx(min), msg, replay{Kind: "bytes", Codec: "cbor", Hex: hx(min)})
 		if verbose {
 			fmt.Println("ORACLE-FAIL:", kind, msg)
 		}
 	}
-	if k := bytesFailure(o); k != "" {
-		fail(k, describe(o))
+	repeatedKeyObserved = false
+	k := bytesFailure(o)
+	seen := repeatedKeyObserved
+	if k != "" {
+		fail(k, describe(o)) // (shrinking re-runs the oracle)
 	}
+	repeatedKeyObserved = seen
+	noteRepeatedKey(c, "cbor")
 	if verbose {
 		fmt.Printf("bytes %x: %s\n", b, describe(o))
 	}
@@ -227,6 +226,21 @@ func emitDec(c *vlib.Ctx, origin string) bool {
 	return true
 }
 
+// set by bytesFailure / jsonFailure when the typed prototype accepted a block with a repeated
+// field that the generic prototype rejected (bindnode's struct assembler has no repeated-key
+// check: last scalar wins, repeated lists are concatenated)
+var repeatedKeyObserved bool
+
+func noteRepeatedKey(c *vlib.Ctx, codec string) {
+	if repeatedKeyObserved {
+		repeatedKeyObserved = false
+		c.Count("observation:" + codec + ":typed-accepts-repeated-field-generic-rejects")
+		if c.Res.Distribution["observation:"+codec+":typed-accepts-repeated-field-generic-rejects"] == 1 {
+			c.Note("observation (" + codec + "): a block with a repeated struct field is rejected by basicnode.Prototype.Any and accepted by the typed prototype (last scalar wins, repeated lists are concatenated); the decoded value re-encodes; not a violation of the property text (theorem typed_accepts_what_generic_rejects)")
+		}
+	}
+}
+
 func describe(o decObs) string {
 	s := fmt.Sprintf("generic=%s typed-ad=%s typed-chunk=%s", o.genG, o.adG, o.chG)
 	if o.genG.ok() {
@@ -254,7 +268,14 @@ func bytesFailure(o decObs) string {
 			return "generic-differs-from-typed-chunk"
 		}
 	} else if o.adG.ok() || o.chG.ok() {
-		return "typed-accepts-what-generic-rejects"
+		if o.genG.err != nil && strings.Contains(o.genG.err.Error(), "repeat map key") {
+			// Not a violation of the property: for arbitrary bytes it asks for "an error or a
+			// value that can be re-encoded", which both paths deliver (generic: error, typed: a
+			// value, checked below to re-encode).  Recorded as an observation by the callers.
+			repeatedKeyObserved = true
+		} else {
+			return "typed-accepts-what-generic-rejects"
+		}
 	}
 	if o.adG.ok() && allUTF8(o.ad) {
 		if m := reencodes(adOps(o.ad)); m != "" {
@@ -672,9 +693,10 @@ func jsonFailure(b []byte) (string, string) {
 		}
 	} else if adG.ok() || chG.ok() {
 		if genG.err != nil && strings.Contains(genG.err.Error(), "repeat map key") {
-			return "typed-accepts-what-generic-rejects:repeated-map-key", desc
+			repeatedKeyObserved = true // observation, see bytesFailure
+		} else {
+			return "typed-accepts-what-generic-rejects", desc
 		}
-		return "typed-accepts-what-generic-rejects", desc
 	}
 	if adG.ok() && allUTF8(ad) {
 		if m := reencodes(adOps(ad)); m != "" {
@@ -692,14 +714,13 @@ func jsonFailure(b []byte) (string, string) {
 func doJSONBytes(c *vlib.Ctx, b []byte, verbose bool) {
 	c.Eval()
 	c.Count("json-malformed")
+	repeatedKeyObserved = false
 	k, desc := jsonFailure(b)
+	noteRepeatedKey(c, "json")
 	if verbose {
 		fmt.Printf("json %q: %s\n", b, desc)
 	}
-	if k == "typed-accepts-what-generic-rejects:repeated-map-key" {
-		c.Fail("dec:json:"+k, "a DAG-JSON block with a repeated struct field is rejected by the generic prototype and accepted by the typed one: "+desc,
-			replay{Kind: "bytes", Codec: "json", Hex: hx([]byte(`{"Entries":[],"Entries":[]}`))})
-	} else if k != "" {
+	if k != "" {
 		min := shrinkBytes(b, func(x []byte) bool { kk, _ := jsonFailure(x); return kk == k })
 		c.Fail("dec:json:"+k+":"+strconv.QuoteToASCII(string(min)), desc, replay{Kind: "bytes", Codec: "json", Hex: hx(min)})
 	}
@@ -786,32 +807,68 @@ func deepChild(args []string) {
 	fmt.Printf("RETURNED panicked=%q err=%v\n", g.panicked, err != nil)
 }
 
-// runDeepChild: "returned" (error or value), or "died" with the first line of the crash
+// runDeepChild runs the decode in a child process (a Go stack overflow cannot be recovered)
+// under a deadline.  Result: "returned" (error or value), "overflow" (the child printed
+// "stack overflow" and died), or "inconclusive" (anything else: deadline, killed, ...),
+// which is counted and noted but never reported as a failure.
 func runDeepChild(codec, mode string, depth, maxStack int) (string, string) {
-	cmd := exec.Command(os.Args[0], "-deep-child", codec, mode, strconv.Itoa(depth), strconv.Itoa(maxStack))
-	out, err := cmd.CombinedOutput()
-	s := string(out)
+	ctx, cancel := context.WithTimeout(context.Background(), 3*time.Minute)
+	defer cancel()
+	cmd := exec.CommandContext(ctx, os.Args[0], "-deep-child", codec, mode, strconv.Itoa(depth), strconv.Itoa(maxStack))
+	cmd.WaitDelay = 5 * time.Second
+	var out bytes.Buffer
+	cmd.Stdout = &limitedWriter{w: &out, left: 1 << 16} // the crash dumps every frame: keep the head only
+	cmd.Stderr = cmd.Stdout
+	err := cmd.Run()
+	s := out.String()
 	if err == nil && strings.Contains(s, "RETURNED panicked=\"\"") {
 		return "returned", strings.TrimSpace(s)
 	}
-	first := s
-	if i := strings.Index(s, "fatal error:"); i >= 0 {
-		first = s[i:]
+	if strings.Contains(s, "stack overflow") {
+		first := s[strings.Index(s, "stack overflow"):]
+		if i := strings.Index(s, "fatal error:"); i >= 0 {
+			first = s[i:]
+		}
+		if i := strings.IndexByte(first, '\n'); i >= 0 {
+			first = first[:i]
+		}
+		return "overflow", first
 	}
-	if i := strings.IndexByte(first, '\n'); i >= 0 {
-		first = first[:i]
+	if len(s) > 200 {
+		s = s[:200]
 	}
-	return "died", first
+	return "inconclusive", fmt.Sprintf("%v: %s", err, s)
 }
 
-func doDeep(c *vlib.Ctx, codec string, depth int, verbose bool) {
-	// The default maximum goroutine stack is 1 GB.  The quick tier shows the unbounded
-	// recursion with the stack capped at 64 MB and a proportionally smaller depth; the
-	// thorough tier (and a replay) crashes the child with the default limit.
-	maxStack := 0
+type limitedWriter struct {
+	w    *bytes.Buffer
+	left int
+}
+
+func (l *limitedWriter) Write(p []byte) (int, error) {
+	if l.left > 0 {
+		n := len(p)
+		if n > l.left {
+			n = l.left
+		}
+		l.w.Write(p[:n])
+		l.left -= n
+	}
+	return len(p), nil
+}
+
+var fullDepth = map[string]int{"cbor": 2600000, "json": 5000000}
+
+func doDeep(c *vlib.Ctx, codec string, verbose bool) {
+	// The default maximum goroutine stack is 1 GB: fullDepth levels overflow it (thorough tier
+	// and --replay; about 1.5 GB of memory for a few seconds).  The quick tier shows the same
+	// unbounded recursion cheaply and with a wide margin: stack capped at 8 MB in the child
+	// (debug.SetMaxStack), depth chosen so that the recursion needs at least three times that
+	// (>= 100 bytes of stack per level measured for both decoders); child memory < 100 MB.
+	depth, maxStack := fullDepth[codec], 0
 	if !c.Thorough() && c.Replay == "" {
-		maxStack = 32 << 20
-		depth = depth / 8
+		maxStack = 8 << 20
+		depth = map[string]int{"cbor": 120000, "json": 250000}[codec]
 	}
 	for _, mode := range []string{"typed", "generic"} {
 		res, detail := runDeepChild(codec, mode, depth, maxStack)
@@ -820,20 +877,27 @@ func doDeep(c *vlib.Ctx, codec string, depth int, verbose bool) {
 		if verbose {
 			fmt.Printf("deep %s %s depth=%d maxstack=%d: %s %s\n", codec, mode, depth, maxStack, res, detail)
 		}
-		if res == "died" {
-			what := "[" + "x" + "]"
+		switch res {
+		case "inconclusive":
+			c.Note(fmt.Sprintf("deep-nesting child (%s, %s prototype, depth %d) was inconclusive: %s", codec, mode, depth, detail))
+		case "overflow":
+			what := "'[' repeated (nested arrays)"
 			if codec == "cbor" {
 				what = "0x81 repeated (nested one-element arrays)"
-			} else {
-				what = "'[' repeated (nested arrays)"
 			}
-			c.Fail("load:"+mode+":"+codec+":deep-nesting-kills-process", fmt.Sprintf("a %s block of %s to depth %d, loaded with the %s prototype through lsys.Load, does not return an error: the process dies (%s; maximum goroutine stack %s). The decoder recurses once per nesting level and its allocation budget does not bound the depth: with the default 1 GB stack %d levels (a %.1f MB block) are enough", codec, what, depth, mode, detail, map[bool]string{true: "default", false: fmt.Sprintf("capped at %d MB for this quick run", maxStack>>20)}[maxStack == 0], map[string]int{"cbor": 2600000, "json": 5000000}[codec], map[string]float64{"cbor": 2.6, "json": 10}[codec]),
-				replay{Kind: "deep", Codec: codec, Depth: map[string]int{"cbor": 2600000, "json": 5000000}[codec]})
+			stack := "default (1 GB)"
+			if maxStack != 0 {
+				stack = fmt.Sprintf("capped at %d MB for this quick run", maxStack>>20)
+			}
+			c.Fail("load:"+mode+":"+codec+":deep-nesting-kills-process",
+				fmt.Sprintf("a %s block of %s to depth %d, loaded with the %s prototype through lsys.Load, does not return an error: the process dies (%s; maximum goroutine stack %s). The decoder recurses once per nesting level and its allocation budget does not bound the depth: with the default 1 GB stack %d levels (a %.1f MB block) are enough",
+					codec, what, depth, mode, detail, stack, fullDepth[codec], map[string]float64{"cbor": 2.6, "json": 10}[codec]),
+				replay{Kind: "deep", Codec: codec, Depth: fullDepth[codec]})
 		}
 	}
 }
 
 func runDeep(c *vlib.Ctx) {
-	doDeep(c, "cbor", 2600000, false)
-	doDeep(c, "json", 5000000, false)
+	doDeep(c, "cbor", false)
+	doDeep(c, "json", false)
 }
